@@ -395,7 +395,13 @@ func drawProgram(t *rapid.T, o ProgOpts, label string) *ProgInfo {
 		case kind <= 9:
 			add(ind + entry(label+"-e"))
 		case kind == 10 && o.Comments:
-			add(ind + "##! " + drawWord(t, 1, 5, label+"-cm"))
+			if o.Ambiguous && chance(t, 50, label+"-cmsigil") {
+				// comments whose text starts with a directive sigil: still comments
+				add(ind + "##! " + pick(t, []string{"+ i", "+ bullet", "^ note", "$ note", "> assemble", "> include inc1", "< end", "=> x", "=< y", "+", "^", "$"}, label+"-cmsig"))
+				info.UsedAmbig = true
+			} else {
+				add(ind + "##! " + drawWord(t, 1, 5, label+"-cm"))
+			}
 		case kind == 11 && o.Comments:
 			add("")
 		case kind == 12 && o.Blocks && depth < 3:
